@@ -5,6 +5,7 @@ class C02(TxCheck):
     ID = "C02"
     MODE = "c02"
     LEVEL = "proof"
+    MODEL_CODES = [13, 14, 18, 21, 22, 23, 24, 902]
     N_QUICK = 60
     N_THOROUGH = 2000
     KINDS = ["balance_differs_from_ledger", "spendable_set_differs_from_ledger", "unconfirmed_set_differs_from_ledger",
